@@ -164,5 +164,5 @@ TrNext == TrReset \/ TrSend \/ TrPumpDone \/ TrCall \/ TrStopCall \/ TrAbort
 TrSpec == TrInit /\ [][TrNext]_tvars
 
 HW == HWMark(l)
-Accepted == HWAccepted
+TraceAccepted == HWAccepted
 =============================================================================
